@@ -34,6 +34,11 @@ def check(repo, col, tier):
     _layout(repo, col)
     from . import c01_solver
     c01_solver.check(repo, col, tier)
+    # "for every parameter setting": geometry given at simulation time (trainables, data_set) must reach the coupling
+    # conductances of the matrix, not only the parameter dictionary (shared with C02/C05/C10/C15)
+    from . import c10
+    col.rule("R-C01-derived", "the axial conductances of the step are derived from the overridden parameters", 1)
+    c10.derived_after_overrides(repo, col, "R-C01-derived")
 
 
 # --------------------------------------------------------------------------------------
